@@ -63,31 +63,81 @@ def counter_sim(S, L, hdr_ctx, counter, init, req, entry_nodes):
             out.append((w, n2))
         return out
 
-    def longest(v, n):
-        key = (v, n)
-        if n > CAP:
-            raise OverflowError
-        if key in memo:
-            return memo[key]
-        if key in onstack:
-            raise RecursionError
-        onstack.add(key)
-        best = 0
-        for (w, n2) in succ_states(v, n):
-            best = max(best, longest(w, n2))
-        onstack.discard(key)
-        r = best + (1 if v == req else 0)
-        memo[key] = r
-        return r
-    try:
-        best = 0
-        for e in entry_nodes:
-            best = max(best, longest(e, init))
-        return best, "tests %s, increment blocks %d" % (sorted(set((o, k) for o, k, _ in tests.values())), len(inc_blocks))
-    except OverflowError:
-        return None, "the counter grows beyond %d without the loop being left" % CAP
-    except RecursionError:
-        return None, "a cycle through the loop does not increment the counter"
+    # explicit state graph (block, counter value); cycles that do not contain the send neither add sends nor hide any
+    # (an inner loop of a callee, e.g. a scan over the app entries while building the request)
+    states = {}
+    work = [(e, init) for e in entry_nodes]
+    while work:
+        st = work.pop()
+        if st in states:
+            continue
+        if st[1] > CAP:
+            return None, "the counter grows beyond %d without the loop being left" % CAP
+        states[st] = succ_states(*st)
+        work.extend(states[st])
+    # Tarjan SCC (iterative)
+    index = {}
+    low = {}
+    onst = set()
+    stack = []
+    comp = {}
+    comps = []
+    counter_ = [0]
+    for root in list(states):
+        if root in index:
+            continue
+        it = [(root, iter(states[root]))]
+        index[root] = low[root] = counter_[0]
+        counter_[0] += 1
+        stack.append(root)
+        onst.add(root)
+        while it:
+            v, ch = it[-1]
+            adv = False
+            for w in ch:
+                if w not in index:
+                    index[w] = low[w] = counter_[0]
+                    counter_[0] += 1
+                    stack.append(w)
+                    onst.add(w)
+                    it.append((w, iter(states[w])))
+                    adv = True
+                    break
+                elif w in onst:
+                    low[v] = min(low[v], index[w])
+            if adv:
+                continue
+            it.pop()
+            if it:
+                low[it[-1][0]] = min(low[it[-1][0]], low[v])
+            if low[v] == index[v]:
+                cset = []
+                while True:
+                    w = stack.pop()
+                    onst.discard(w)
+                    comp[w] = len(comps)
+                    cset.append(w)
+                    if w == v:
+                        break
+                comps.append(cset)
+    weight = []
+    for ci, cset in enumerate(comps):
+        cyclic = len(cset) > 1 or any(s_ in states[s_] for s_ in cset)
+        has_req = any(s_[0] == req for s_ in cset)
+        if cyclic and has_req:
+            return None, "a cycle through the send does not increment the counter"
+        weight.append(1 if has_req else 0)
+    # longest path over the condensation (components are numbered in reverse topological order by Tarjan)
+    best_c = [0] * len(comps)
+    for ci in range(len(comps)):
+        m = 0
+        for s_ in comps[ci]:
+            for w in states[s_]:
+                if comp[w] != ci:
+                    m = max(m, best_c[comp[w]])
+        best_c[ci] = m + weight[ci]
+    best = max([best_c[comp[(e, init)]] for e in entry_nodes] or [0])
+    return best, "tests %s, increment blocks %d, %d states" % (sorted(set((o, k) for o, k, _ in tests.values())), len(inc_blocks), len(states))
 
 
 def run(F, R):
